@@ -158,13 +158,13 @@ func checkCreate(c Case) ev.Verdict {
 	if !goFloatSpelled(a) || !goFloatSpelled(b) {
 		return ev.Excluded("a number not spelled the way Go prints a float64")
 	}
+	if b.HasNullMember() {
+		return ev.Excluded("B has a null-valued member", "b-has-null-member")
+	}
 	var out []byte
 	var err error
 	if p := ev.Safe(func() { out, err = jl.CreateMergePatch([]byte(c.A), []byte(c.B)) }); p != nil {
 		return ev.Verdict{Err: p}
-	}
-	if b.HasNullMember() {
-		return ev.Excluded("B has a null-valued member", "b-has-null-member")
 	}
 	v := ev.Verdict{NonTrivial: !ref.Equal(a, b)}
 	if err != nil {
@@ -223,13 +223,13 @@ func checkCompose(c Case) ev.Verdict {
 	if e1 != nil || e2 != nil || e3 != nil || p1.K != ref.KObj || p2.K != ref.KObj || d.K == ref.KNull || p1.HasDup() || p2.HasDup() || d.HasDup() {
 		return ev.Excluded("not (object, object, non-null document) without duplicate names")
 	}
+	if !laws.Compat(p1, p2) {
+		return ev.Excluded("incompatible pair", "incompatible")
+	}
 	var out []byte
 	var err error
 	if p := ev.Safe(func() { out, err = jl.MergeMergePatches([]byte(c.A), []byte(c.B)) }); p != nil {
 		return ev.Verdict{Err: p}
-	}
-	if !laws.Compat(p1, p2) {
-		return ev.Excluded("incompatible pair", "incompatible")
 	}
 	v := ev.Verdict{NonTrivial: laws.SharedNull(p1, p2, 0)}
 	if err != nil {
